@@ -33,6 +33,12 @@ FAMILIES["stack"] = {
              "name": "CopyToUnder closure", "sig": "pub fn ctx_copy_to_under(env: &mut Uiua, n: usize) -> UiuaResult"},
             {"kind": "closure_in_arm", "file": "src/run.rs", "impl": UIUA, "fn": "exec_impl", "arm": r"Node::PopUnder\(n, span\)",
              "name": "PopUnder closure", "sig": "pub fn ctx_pop_under(env: &mut Uiua, n: usize) -> UiuaResult"},
+            {"kind": "arm", "name": "run_prim_mod Fork arm", "file": "src/run_prim.rs", "fn": "run_prim_mod", "arm": r"Primitive::Fork",
+             "sig": "pub fn rt_arm_fork(mut ops: Ops, env: &mut Uiua) -> UiuaResult", "epilogue_ok": True},
+            {"kind": "arm", "name": "run_prim_mod Bracket arm", "file": "src/run_prim.rs", "fn": "run_prim_mod", "arm": r"Primitive::Bracket",
+             "sig": "pub fn rt_arm_bracket(mut ops: Ops, env: &mut Uiua) -> UiuaResult", "epilogue_ok": True,
+             "rewrites": (("R6", r"SmallVec<\[Vec<Value>; 3\]>", "Vec<Vec<Value>>", "SmallVec -> Vec (inline capacity is not modelled)"),
+                          ("R6", r"SmallVec::new\(\)", "Vec::new()", "SmallVec -> Vec"))},
             {"kind": "fn", "file": "src/algorithm/mod.rs", "fn": "try_sig"},
             {"kind": "fn", "file": "src/algorithm/mod.rs", "fn": "try_"},
         ]},
